@@ -34,6 +34,16 @@ def main(argv, repo):
         res = prop.run_one(seed, args.tier, args.one)
         import json
         print(json.dumps({k: v for k, v in res.items() if k != "doc"}, indent=1, default=repr)[:6000])
+        if res.get("doc") and not res.get("ok"):
+            from . import kernel as K
+            doc = dict(res["doc"], expect_sig=res["sig"])
+            K.init_scratch()
+            doc = K.minimise(prop, doc, res["sig"], nlanes=args.lanes)
+            doc["detail"] = res.get("detail")
+            os.makedirs(os.path.join(K.VERIF, "replays"), exist_ok=True)
+            path = os.path.join(K.VERIF, "replays", "one-%s-%d.json" % (prop.id, args.one))
+            json.dump(doc, open(path, "w"), indent=1, default=repr)
+            print("minimised replay:", path)
         return 0 if res.get("ok") else 1
     gc.collect()
     gc.freeze()
